@@ -80,6 +80,41 @@ def check_smooth(case):
     return fails, (entry, len(x), str(s), tuple(np.round(gy, 6)), bool(np.any(np.abs(gy - fy) > 1e-9)))
 
 
+@kind("to_function-history")
+def check_tofunction_history(case):
+    """to_function() (default zero smoothing) passes through every sample get() returns - in every
+    state of a history of domain operations, with the function requested before and after each step"""
+    from checks import weaverops as WO
+    r = WO.Runner(WO.INITS[case["init"]])
+    key = {"entry": "to_function-history"}
+    fails = []
+
+    def probe(step, op):
+        gx, gy = r.wv.get()
+        if len(gx) < 4:
+            return
+        with warnings.catch_warnings(record=True) as wl:
+            warnings.simplefilter("always")
+            vals = r.wv.to_function()(np.asarray(gx, dtype=float))
+            sm = r.wv.to_function(0.0)(np.asarray(gx, dtype=float))
+        if any(issubclass(w.category, (RuntimeWarning, UserWarning)) for w in wl):
+            return
+        gy = np.asarray(gy, dtype=float)
+        sc = max(1.0, float(np.max(np.abs(gy))))
+        if np.any(np.abs(vals - gy) > 1e-9 * sc) or np.any(np.abs(sm - gy) > 1e-9 * sc):
+            fails.append(fail("function-inconsistent-with-get", {"step": step, "after": op, "function_at_x": vals, "get_y": gy}, key))
+    probe(-1, None)
+    for i, op in enumerate(case["ops"]):
+        op = tuple(op)
+        if r.concretize(op) is None:
+            return fails, ("skipped",)
+        r.apply(op)
+        probe(i, op)
+        if fails:
+            break
+    return fails, (case["init"], tuple(tuple(o) for o in case["ops"]))
+
+
 def harnesses(tier, seed):
     quick = tier == "quick"
     xgrids = {5: [(0, 1, 2, 3, 4), (0, 1, 3, 4, 8), (0, 2, 3, 7, 8)], 6: [(0, 1, 2, 3, 4, 5), (0, 1, 3, 4, 8, 9), (0, 2, 3, 7, 8, 10)],
@@ -118,4 +153,17 @@ def harnesses(tier, seed):
         if k == 5 and entry == "smooth" and s == 1 and scale == 1.0 and g == xgrids[5][1]:
             ctx.sample({"x": x, "s": s, "entry": entry, "y": "{0,1,3}^5 + ramps"})
 
-    return [{"name": "smoothing", "body": body}]
+    from checks import weaverops as WO
+
+    def hist_body(ctx):
+        ii = ctx.choose([0, 1, 3, 5], "init")
+        ops = []
+        r = WO.Runner(WO.INITS[ii])
+        for d in range(2 if quick else 3):
+            en = r.enabled(WO.DOMAIN_OPS)
+            op = ctx.choose(en, "op%d" % d)
+            r.apply(op)
+            ops.append(op)
+        judge(ctx, check_tofunction_history, {"init": ii, "ops": [list(o) for o in ops]}, calls=2 * len(ops) + 2)
+
+    return [{"name": "smoothing", "body": body}, {"name": "to_function-in-every-state", "body": hist_body}]
